@@ -33,7 +33,9 @@ ASSUMPTIONS = [
     "network_simplex: no mirror (no invariant holds on the unchanged tree update); decided against the certified "
     "optimum; failures are *classified* (never decided) by observing the unchanged function under sys.settrace: class "
     "suffix basis_tree_corrupted = at the start of some iteration parent/pred/depth/thread/pi are not one rooted "
-    "spanning tree with zero reduced cost on tree arcs (the invariant the property record names for this state)",
+    "spanning tree with zero reduced cost on tree arcs (the invariant the property record names for this state) AND the "
+    "basis at loop exit is not a consistent spanning-tree basis (if it is, the answer depends on the pricing test only "
+    "and a failure stays a VIOLATION)",
     "solve_assignment: no R_trace (CPython str-set order decides ties); the network is rebuilt in Lean in a fixed numbering",
     "the implementation's pooled dict is split over parallel arcs cheapest-first by the harness before the verified "
     "checker runs (any other split costs at least as much, so verdicts on capacity/balance/optimality are unaffected)",
@@ -48,7 +50,9 @@ RULE = ("networks of 2..6 nodes (8 thorough), <= 12 arcs (16), costs -3..6 built
         "cost, anti-parallel pairs, arcs into the source / out of the sink, self-loops, unreachable parts, terminals "
         "without arcs, int/str labels and odd hashables (None, 0, '', (), frozenset(), -1, 0.5, tuples); demands 0, partial, saturating and infeasible; balanced multi-supply vectors "
         "(plus unbalanced and capacity-infeasible ones) for network_simplex, which also receives every s-t instance; "
-        "rectangular assignment matrices 0..5 x 0..5; non-trivial = the model made >= 2 augmentations or used a "
+        "rectangular assignment matrices 0..5 x 0..5; a fixed share (about 14 %) of 'large cost base' instances for all "
+        "three functions: integer costs B + 0..9 with B in 1e6..1e12 on layered / transportation networks (several sources "
+        "and sinks, equal-length alternative routes, balanced supplies) and matrices, compared exactly as integers; non-trivial = the model made >= 2 augmentations or used a "
         "backward residual arc; distinct by canonical (function, instance)")
 TIMEOUT = 1.5        # min_cost_flow / solve_assignment: >= 1000x the run time of any explored instance
 TIMEOUT_NS = 12.0    # network_simplex stops at max_iter = 1e6 (about 4-10 s on these sizes)
@@ -241,6 +245,101 @@ def gen_assign(rng, big):
     return {"fn": "solve_assignment", "matrix": mat}
 
 
+BASES = [10 ** 6, 10 ** 8, 10 ** 8, 10 ** 9, 10 ** 9, 10 ** 12]
+
+
+def _layered(rng, sizes, base, cap_hi):
+    """arcs between consecutive layers (every node keeps an in- and an out-arc), cost = base + 0..9, so all routes
+    from the first to the last layer have the same number of arcs and differ in cost by a few units only"""
+    layers, nid = [], 0
+    for k in sizes:
+        layers.append(list(range(nid, nid + k)))
+        nid += k
+    arcs = []
+    for a, b in zip(layers, layers[1:]):
+        pairs = {(u, v) for u in a for v in b if rng.random() < 0.7}
+        for u in a:
+            if not any(p[0] == u for p in pairs):
+                pairs.add((u, rng.choice(b)))
+        for v in b:
+            if not any(p[1] == v for p in pairs):
+                pairs.add((rng.choice(a), v))
+        for (u, v) in sorted(pairs):
+            arcs.append((u, v, rng.randint(1, cap_hi), base + rng.randint(0, 9)))
+    rng.shuffle(arcs)
+    return layers, nid, arcs
+
+
+def gen_bigcost(rng, big, fn):
+    """the 'large cost base' family: integer costs B + 0..9 with B in 1e6..1e12 (exactly representable; every sum
+    stays far below 2**53) on layered / transportation networks with equal-length alternative routes"""
+    base = rng.choice(BASES)
+    if fn == "solve_assignment":
+        hi = 6 if big else 5
+        n = rng.randint(2, hi)
+        m = rng.randint(2, hi) if rng.random() < 0.4 else n
+        return {"fn": fn, "matrix": [[base + rng.randint(0, 9) for _ in range(m)] for _ in range(n)]}
+    if fn in ("network_simplex", "min_cost_flow") and rng.random() < 0.5:
+        # complete transportation problem k x l without binding arc capacities: the cheapest-arc-first basis the
+        # big-M phase ends in is often not optimal, the optimum then needs one more pivot whose reduced cost is
+        # only a few units (the difference of two routes of equal length)
+        k, l = rng.randint(2, 3), rng.randint(2, 3 if not big else 4)
+        total = rng.randint(2, 8)
+        sup, dem = [0] * k, [0] * l
+        for _ in range(total):
+            sup[rng.randrange(k)] += 1
+            dem[rng.randrange(l)] += 1
+        small = [[rng.randint(0, 9) for _ in range(l)] for _ in range(k)]
+        if rng.random() < 0.5:      # make the overall cheapest cell a trap: its row/column partners are dear
+            i0, j0 = rng.randrange(k), rng.randrange(l)
+            small[i0][j0] = 0
+            i1, j1 = (i0 + 1) % k, (j0 + 1) % l
+            small[i1][j1] = 9
+            small[i0][j1] = rng.randint(1, 3)
+            small[i1][j0] = rng.randint(1, 3)
+        if fn == "network_simplex":
+            arcs = [[i, k + j, total + rng.choice([0, 1, 5]), base + small[i][j]] for i in range(k) for j in range(l)]
+            rng.shuffle(arcs)
+            return {"fn": fn, "n": k + l, "arcs": arcs, "supplies": sup + [-d for d in dem]}
+        n = k + l + 2
+        s, t = 0, n - 1
+        arcs = [(s, 1 + i, sup[i], base) for i in range(k) if sup[i]]
+        arcs += [(1 + i, 1 + k + j, total, base + small[i][j]) for i in range(k) for j in range(l)]
+        arcs += [(1 + k + j, t, dem[j], base) for j in range(l) if dem[j]]
+        rng.shuffle(arcs)
+        labs = fc.label_maker(rng, n)
+        keys = []
+        for a in arcs:
+            if a[0] not in keys:
+                keys.append(a[0])
+        graph = [[labs[u], [[labs[a[1]], a[2], a[3]] for a in arcs if a[0] == u]] for u in keys]
+        return {"fn": fn, "graph": graph, "source": labs[s], "sink": labs[t], "demand": total}
+    if fn == "network_simplex":
+        # transportation / transshipment: sources -> (0..2 inner layers) -> sinks, balanced supplies
+        inner = rng.choice([[], [2], [2], [3], [2, 2]] + ([[3, 3], [2, 3, 2]] if big else []))
+        sizes = [rng.randint(2, 3)] + inner + [rng.randint(2, 3)]
+        total = rng.randint(2, 9)
+        layers, n, arcs = _layered(rng, sizes, base, rng.choice([3, 6, total, total]))
+        sup = [0] * n
+        for _ in range(total):
+            sup[rng.choice(layers[0])] += 1
+            sup[rng.choice(layers[-1])] -= 1
+        return {"fn": fn, "n": n, "arcs": [list(a) for a in arcs], "supplies": sup}
+    # min_cost_flow: s -> layers -> t (also handed to network_simplex as a common instance)
+    inner = rng.choice([[2], [3], [2, 2], [2, 3], [3, 2]] + ([[3, 3], [2, 2, 2]] if big else []))
+    layers, n, arcs = _layered(rng, [1] + inner + [1], base, 6)
+    s, t = 0, n - 1
+    mf = py_maxflow(n, arcs, s, t)
+    demand = rng.choice([mf, mf, max(1, mf - 1), max(1, mf // 2), mf + 1])
+    labs = fc.label_maker(rng, n)
+    keys = []
+    for a in arcs:
+        if a[0] not in keys:
+            keys.append(a[0])
+    graph = [[labs[u], [[labs[a[1]], a[2], a[3]] for a in arcs if a[0] == u]] for u in keys]
+    return {"fn": fn, "graph": graph, "source": labs[s], "sink": labs[t], "demand": demand}
+
+
 def edge_cases():
     yield {"fn": "min_cost_flow", "graph": [], "source": "s", "sink": "t", "demand": 1}
     yield {"fn": "min_cost_flow", "graph": [], "source": "s", "sink": "t", "demand": 0}
@@ -338,40 +437,100 @@ def _basis_tree_ok(loc):
     return True
 
 
+def _final_basis_ok(loc):
+    """at loop exit: parent/pred is a spanning tree rooted at `root`, tree arcs have zero reduced cost, every
+    non-tree arc sits at a bound, all flows are within bounds and conserve (artificial arcs included).  With such a
+    basis the answer is decided by the pricing test alone, so a wrong answer is not explained by the tree update."""
+    parent, pred, pi, flow, cap = loc["parent"], loc["pred"], loc["pi"], loc["flow"], loc["cap"]
+    source, target, cost = loc["source"], loc["target"], loc["cost"]
+    root, total, n, supplies = loc["root"], loc["total_nodes"], loc["n"], loc["supplies"]
+    tree = set()
+    for v in range(total):
+        if v == root:
+            continue
+        p, a = parent[v], pred[v]
+        if not (0 <= p < total) or not (0 <= a < len(source)) or {source[a], target[a]} != {v, p}:
+            return False
+        if cost[a] - pi[source[a]] + pi[target[a]] != 0:
+            return False
+        tree.add(a)
+        w = v
+        for _ in range(total + 1):
+            if w == root:
+                break
+            w = parent[w]
+        if w != root:
+            return False
+    net = [0] * total
+    for a in range(len(source)):
+        if not (0 <= flow[a] <= cap[a]):
+            return False
+        if a not in tree and flow[a] not in (0, cap[a]):
+            return False
+        net[source[a]] += flow[a]
+        net[target[a]] -= flow[a]
+    return all(net[v] == supplies[v] for v in range(n))
+
+
 def ns_tree_corrupted(n, arcs, supplies):
     """Observation for classifying network_simplex failures (never decides one): run the unchanged function
-    under sys.settrace and report whether, at the start of some iteration, the basis-tree invariant named by
-    the property is broken.  Two mechanisms are known: a subtree whose top node is not the end point of the
-    entering arc is re-hung without reversing the path, and the depth update loop runs past the re-hung
-    subtree.  The run is abandoned at the first broken invariant."""
+    under sys.settrace.  First run: is the basis-tree invariant named by the property (parent/pred/depth/thread/
+    pi one rooted spanning tree, zero reduced cost on tree arcs) broken at the start of some iteration?  (Known
+    mechanisms: a subtree whose top node is not the end point of the entering arc is re-hung without reversing the
+    path; the depth update loop runs past the re-hung subtree.)  It is abandoned at the first broken invariant.
+    If so, a second run looks at the state at loop exit: with a consistent final basis (`_final_basis_ok`) the
+    answer depends on the pricing test only, and a failure is then NOT attributed to the tree update.
+    Returns True iff corruption was observed and the final basis is not known to be consistent."""
     import linecache
     import sys
     from solvor.network_simplex import network_simplex
     code = network_simplex.__code__
+    state = {"final": None, "lines": 0}
 
-    def local(frame, event, arg):
-        if event == "line" and linecache.getline(code.co_filename, frame.f_lineno).strip() == "entering = -1":
+    def text(frame):
+        return linecache.getline(code.co_filename, frame.f_lineno).strip()
+
+    def local1(frame, event, arg):
+        if event == "line" and text(frame) == "entering = -1":
             try:
                 ok = _basis_tree_ok(frame.f_locals)
             except Exception:
                 ok = False
             if not ok:
                 raise _Corrupted()
-        return local
+        return local1
 
-    def tracer(frame, event, arg):
-        return local if event == "call" and frame.f_code is code else None
+    def local2(frame, event, arg):
+        if event == "line":
+            state["lines"] += 1
+            if state["lines"] > 400_000:      # cycling or a thread walk that never ends
+                raise _Corrupted()
+            if state["final"] is None and text(frame) == "for arc in range(m, total_arcs):":
+                try:
+                    state["final"] = bool(_final_basis_ok(frame.f_locals))
+                except Exception:
+                    state["final"] = False
+                raise _Corrupted()
+        return local2
 
-    sys.settrace(tracer)
-    try:
-        network_simplex(n, arcs, supplies, max_iter=20000)
+    def run(local):
+        def tracer(frame, event, arg):
+            return local if event == "call" and frame.f_code is code else None
+        sys.settrace(tracer)
+        try:
+            network_simplex(n, arcs, supplies, max_iter=20000)
+            return False
+        except _Corrupted:
+            return True
+        except Exception:
+            return False
+        finally:
+            sys.settrace(None)
+
+    if not run(local1):
         return False
-    except _Corrupted:
-        return True
-    except Exception:
-        return False
-    finally:
-        sys.settrace(None)
+    run(local2)
+    return state["final"] is not True
 
 
 def impl_ns_flag(case):
@@ -808,6 +967,8 @@ def judge_assign(ctx, case, out, problem, reply):
         raise Infra(f"C09 assignment model did not certify its own answer ({m_status}, {m_cert}) on {case}")
     ctx.count("cert_checked_model")
     ctx.count(f"{fn}:cases")
+    if any(abs(v) >= 10 ** 6 for r in case["matrix"] for v in r):
+        ctx.count(f"{fn}:input:large_cost_base")
     rep = {"case": case, "impl": out, "model": {"optimal_cost": m_cost, "assignment": m_asg}}
     ok = True
     if out[0] != "ok":
@@ -860,6 +1021,8 @@ def judge(ctx, case, out, tout, meta, reply):
     ctx.count("cert_checked_model")
     ctx.count(f"model:{m_status}")
     ctx.count(f"{fn}:cases")
+    if any(abs(a[3]) >= 10 ** 6 for a in arcs):
+        ctx.count(f"{fn}:input:large_cost_base")
     nontrivial = m_iters >= 2 or m_cancel >= 1
     rep = {"case": case, "impl": out, "model": {"status": m_status, "flow_per_arc": m_x, "cost": m_cost,
                                                 "potentials": m_pot, "cut": m_cut}, "arcs_indexed": arcs}
@@ -941,6 +1104,13 @@ def run(ctx, budget):
         cases.append(gen_ns(ctx.rng, b))
         if i % 3 == 0:
             cases.append(gen_assign(ctx.rng, b))
+        # fixed share (about 14 % of the cases) of the large-cost-base family, all three functions
+        if i % 5 == 0:
+            cases.append(gen_bigcost(ctx.rng, b, "network_simplex"))
+        if i % 5 == 1:
+            cases.append(gen_bigcost(ctx.rng, b, "min_cost_flow"))
+        if i % 10 == 2:
+            cases.append(gen_bigcost(ctx.rng, b, "solve_assignment"))
     run_cases(ctx, cases)
     _summarise(ctx)
 
